@@ -149,8 +149,8 @@ pub fn shapes() -> Vec<Shape> {
 /// content 0 = filler pattern, 1 = all zero, 2 = all 0xFF (data[64] keeps its role as length byte)
 pub fn shapes_with(content: u8) -> Vec<Shape> {
     let mut out = Vec::new();
-    let lens = [0usize, 1, 8, 63, 64, 65, 66, 67, 318, 319, 320, 321, 7609, 7610, 65535];
-    let d64s = [0u8, 1, 2, 253, 254, 255];
+    let lens = [0usize, 1, 8, 63, 64, 65, 66, 67, 254, 255, 256, 257, 318, 319, 320, 321, 7609, 7610, 65535];
+    let d64s = [0u8, 1, 2, 189, 190, 191, 192, 253, 254, 255];
     for len in lens {
         for d64 in d64s {
             if len <= 64 && d64 != 0 {
